@@ -8,6 +8,9 @@ CONSTANTS
   Units = {4}
   EmitMod = 1
   EmitRem = 0
-  Fixed = {"AsyncColumn", "DedentCont", "LambdaInClass"}
+  Fixed = {"AsyncColumn", "DedentCont", "LambdaInClass", "CompWhile"}
+  MaxNest = 0
+  NestKinds = {}
+  Plain = FALSE
 CONSTRAINT Verdict
 CHECK_DEADLOCK FALSE
